@@ -352,7 +352,9 @@ func genDict(c *Ctx) {
 			panic(err)
 		}
 		name := strings.TrimSuffix(filepath.Base(p), ".xml")
-		c.Emit(L(Sym("spec"), Sym(name), docSx(doc)), loadXML(src))
+		in := L(Sym("spec"), Sym(name), docSx(doc))
+		c.Pending(in)
+		c.Emit(in, loadXML(src))
 	}
 	for i := 0; i < c.N; i++ {
 		g := &specGen{c: c}
@@ -362,6 +364,8 @@ func genDict(c *Ctx) {
 		if err != nil {
 			panic(fmt.Sprintf("generated document does not decode: %v\n%s", err, src))
 		}
-		c.Emit(L(Sym("spec"), Sym("none"), docSx(seen)), loadXML(src))
+		in2 := L(Sym("spec"), Sym("none"), docSx(seen))
+		c.Pending(in2)
+		c.Emit(in2, loadXML(src))
 	}
 }
